@@ -98,6 +98,9 @@ type nativeResult struct {
 
 func workDir(id string) string {
 	d := filepath.Join(verifDir(), "work", id)
+	if w := os.Getenv("GOSYM_WORK"); w != "" {
+		d = filepath.Join(w, id)
+	}
 	os.MkdirAll(d, 0o755)
 	return d
 }
@@ -320,6 +323,10 @@ func runCheck(def *checkDef, tier string, seed int64, workers int) int {
 		return 2
 	}
 	cfg := defaultConfig()
+	smtDir := filepath.Join(workDir(def.ID), "smt")
+	os.RemoveAll(smtDir)
+	os.MkdirAll(smtDir, 0o755)
+	cfg.SolverLogDir = smtDir
 	if def.UseStubs {
 		addRedirects(&cfg)
 	}
@@ -408,6 +415,7 @@ func runCheck(def *checkDef, tier string, seed int64, workers int) int {
 	var abnormalJobs []*interp.JobResult
 	var samples []interface{}
 	rng := rand.New(rand.NewSource(seed))
+	crossJobs, crossQueries := 0, 0
 	for n, j := range jobs {
 		res, err := eng.RunJob(interp.Job{Name: j.Name, Func: modulePath + "/" + overlayDir + "/" + pkgOf(j) + "." + j.Func, Params: j.Params, Opts: j.Opts, MaxPaths: j.MaxPaths}, workers)
 		if err != nil {
@@ -415,6 +423,26 @@ func runCheck(def *checkDef, tier string, seed int64, workers int) int {
 			continue
 		}
 		results = append(results, res)
+		// cross-check the answers of one worker's solver session with a second solver, for the
+		// first jobs and a seed-chosen sample of the rest; transcripts are removed afterwards
+		if res.Solver.Queries > 0 && (crossJobs < 3 || rng.Intn(20) == 0) && crossJobs < 12 {
+			tr := filepath.Join(smtDir, fmt.Sprintf("solver-%s-0.smt2", sanitizeJob(j.Name)))
+			n, disagreement, err := crossCheck(tr, 3<<20)
+			switch {
+			case err != nil:
+				note("cross-check of job %s with cvc5 failed: %v", j.Name, err)
+			case disagreement != "":
+				note("solvers disagree on job %s: %s", j.Name, disagreement)
+			case n > 0:
+				crossJobs++
+				crossQueries += n
+			}
+		}
+		if files, _ := filepath.Glob(filepath.Join(smtDir, "*.smt2")); len(files) > 0 {
+			for _, f := range files {
+				os.Remove(f)
+			}
+		}
 		if res.Wall > 5 {
 			fmt.Printf("[%s]   job %s: %d paths in %.1fs (%d solver queries)\n", def.ID, j.Name, res.Paths, res.Wall, res.Solver.Queries)
 		}
@@ -656,6 +684,9 @@ func runCheck(def *checkDef, tier string, seed int64, workers int) int {
 		"solver_time_s":                 total.solver.Seconds(),
 		"solver":                        strings.Join(interp.SolverCmd, " "),
 		"solver_unknown":                total.unknown,
+		"second_solver":                 "cvc5 --incremental (every check-sat answer of sampled worker sessions re-decided and compared)",
+		"second_solver_jobs":            crossJobs,
+		"second_solver_queries_compared": crossQueries,
 		"reach":                         reach,
 		"cuts_by_assumption":            cuts,
 		"functions_encoded":             funcs,
@@ -860,6 +891,9 @@ func writeEvidenceRaw(def *checkDef, tier string, seed int64, cov map[string]int
 	}
 	data, _ := json.MarshalIndent(ev, "", " ")
 	dir := filepath.Join(verifDir(), "evidence")
+	if e := os.Getenv("GOSYM_EVIDENCE"); e != "" {
+		dir = e // experiments against a scratch worktree must not overwrite the real evidence
+	}
 	os.MkdirAll(dir, 0o755)
 	os.WriteFile(filepath.Join(dir, def.ID+".json"), data, 0o644)
 }
@@ -901,4 +935,78 @@ func containsStr(l []string, s string) bool {
 		}
 	}
 	return false
+}
+
+// crossCheck replays a solver transcript through a second solver (cvc5) and compares every
+// check-sat answer with the one the primary solver gave. It returns the number of answers
+// compared and a description of the first disagreement ("" if none).
+func crossCheck(transcript string, maxBytes int64) (int, string, error) {
+	data, err := os.ReadFile(transcript)
+	if err != nil {
+		return 0, "", err
+	}
+	if int64(len(data)) > maxBytes {
+		data = data[:maxBytes]
+	}
+	// cut at the last complete path (the transcript may be capped or truncated)
+	cut := bytes.LastIndex(data, []byte("(pop 1)\n"))
+	if cut < 0 {
+		return 0, "", nil
+	}
+	data = data[:cut+len("(pop 1)\n")]
+	var want []string
+	var script bytes.Buffer
+	script.WriteString("(set-logic ALL)\n")
+	for _, line := range bytes.Split(data, []byte("\n")) {
+		if bytes.HasPrefix(line, []byte("; ANSWER ")) {
+			want = append(want, string(bytes.TrimPrefix(line, []byte("; ANSWER "))))
+			continue
+		}
+		if bytes.HasPrefix(line, []byte("(get-value")) {
+			continue // models differ between solvers and are not compared
+		}
+		script.Write(line)
+		script.WriteByte('\n')
+	}
+	if len(want) == 0 {
+		return 0, "", nil
+	}
+	tmp := transcript + ".cvc5.smt2"
+	if err := os.WriteFile(tmp, script.Bytes(), 0o644); err != nil {
+		return 0, "", err
+	}
+	defer os.Remove(tmp)
+	cmd := exec.Command("cvc5", "--incremental", "--tlimit-per=20000", tmp)
+	out, err := cmd.CombinedOutput()
+	var got []string
+	for _, line := range strings.Split(string(out), "\n") {
+		line = strings.TrimSpace(line)
+		if line == "sat" || line == "unsat" || line == "unknown" {
+			got = append(got, line)
+		}
+		if strings.HasPrefix(line, "(error") {
+			return 0, "", fmt.Errorf("cvc5: %s", line)
+		}
+	}
+	if len(got) != len(want) {
+		return len(got), "", fmt.Errorf("cvc5 gave %d answers for %d queries (%v)", len(got), len(want), err)
+	}
+	for k := range want {
+		if got[k] == "unknown" || want[k] == "unknown" {
+			continue
+		}
+		if got[k] != want[k] {
+			return len(got), fmt.Sprintf("query %d: z3 says %s, cvc5 says %s", k, want[k], got[k]), nil
+		}
+	}
+	return len(got), "", nil
+}
+
+func sanitizeJob(s string) string {
+	return strings.Map(func(r rune) rune {
+		if r >= 'a' && r <= 'z' || r >= 'A' && r <= 'Z' || r >= '0' && r <= '9' || r == '-' || r == '_' {
+			return r
+		}
+		return '_'
+	}, s)
 }
